@@ -18,21 +18,18 @@ def _extra(ctx, spec):
         'every value type x every base-type byte 0..255 (ops)': d.get('type-x-basetype', 0),
         'every array byte length 0..264 per slice type x both byte orders (ops)': d.get('array', 0) + d.get('array-order-sensitive', 0),
         'UnmarshalValue: every base-type byte x length 0..9 x array x bool flags (ops)': d.get('unm-grid', 0),
+        'UnmarshalValue -> MarshalAppend -> UnmarshalValue on arbitrary bytes, every valid base type x flags x byte orders, every byte as typedef.Bool scalar / array element (ops)': d.get('unm-reencode', 0),
         'every 1- and 2-byte string through DecodeRune/Valid/utf8String (blocks)': u.get('exhaustive-2', 0),
     }
 
 
 PROP = dict(
     level='proof',
-    regen=['consts', 'go2lean:basetype'],
-    go2lean_diff=['Basetype'],
+    regen=['consts'],
     extra=_extra,
-    theorems=['Fit.C06.C06_size_eq_len', 'Fit.C06.C06_marshal_total', 'Fit.C06.C06_marshal_bytes', 'Fit.C06.C06_unmarshal_marshal_partial', 'Fit.C06.C06_unmarshal_marshal_full_fails', 'Fit.C06.C06_norm_id', 'Fit.C06.C06_norm_bool', 'Fit.C06.C06_norm_string', 'Fit.C06.C06_norm_strings', 'Fit.C06.C06_unmarshal_guard', 'Fit.C06.C06_unmarshal_no_panic', 'Fit.C06.C06_unmarshal_err_iff', 'Fit.C06.C06_tag', 'Fit.C06.C06_no_cross_type', 'Fit.C06.C06_any_roundtrip', 'Fit.C06.C06_align_by_type',
-              # tie by translation (FitProps/C06Go2Lean.lean, notes/go2lean.md)
-              'Fit.C06.C06_go2lean_sizes', 'Fit.C06.C06_go2lean_size', 'Fit.C06.C06_go2lean_valid', 'Fit.C06.C06_go2lean_list', 'Fit.C06.C06_go2lean_spec_size', 'Fit.C06.C06_go2lean_spec_valid', 'Fit.C06.C06_go2lean_spec_list', 'Fit.C06.C06_go2lean_spec_names'],
+    theorems=['Fit.C06.C06_size_eq_len', 'Fit.C06.C06_marshal_total', 'Fit.C06.C06_marshal_bytes', 'Fit.C06.C06_unmarshal_marshal_partial', 'Fit.C06.C06_unmarshal_marshal_full_fails', 'Fit.C06.C06_norm_id', 'Fit.C06.C06_norm_bool', 'Fit.C06.C06_norm_string', 'Fit.C06.C06_norm_strings', 'Fit.C06.C06_unmarshal_guard', 'Fit.C06.C06_unmarshal_no_panic', 'Fit.C06.C06_unmarshal_err_iff', 'Fit.C06.C06_unmarshal_bool_array', 'Fit.C06.C06_unmarshal_reencode_partial', 'Fit.C06.C06_tag', 'Fit.C06.C06_no_cross_type', 'Fit.C06.C06_any_roundtrip', 'Fit.C06.C06_align_by_type'],
     families=[dict(name='value', spec=True, prop=True), dict(name='utf8')],
     trusted_base=STD_TRUST + [
-        "translators/go2lean (Go→Lean for a small subset of Go, notes/go2lean.md) re-translates profile/basetype/basetype.go (sizes table, Size, Valid, List, String, FromString) from the current source on every run; the agreement theorems *_go2lean_* state that the translated functions equal the hand-written model functions for all arguments; trusted: the translator's rendering of the subset (go/types computes constants and types) and FitModel/GoPrelude.lean",
         "Generated/Consts.lean is printed on every run by `fitharness consts` from the compiled packages (proto.Type numbers, proto's sizes table observed through Size(), vbits/vshift/vmask recovered from the raw num word of empty slices, base type numbers / sizes / invalid sentinels)",
         "unicode/utf8 (DecodeRune, AppendRune, Valid) is modelled after its documented behaviour in FitModel/Utf8.lean and tied by the family utf8 (every 1- and 2-byte string, all (lead, second byte) pairs with boundary continuation bytes, every Unicode scalar value in the thorough tier)",
         "proto.Any's reflection fallback (named types, pointers) is Go runtime behaviour: modelled as the identity on the underlying kind, tied by the ops `vany`, not proved",
@@ -45,6 +42,22 @@ PROP = dict(
 
 TEXT = dict(
     technique='Lean 4 proof over a 25-constructor model of proto.Value (size/marshal/unmarshal/valid/align/tag representation, UTF-8 decoding) + constants regenerated from the compiled packages + differential tie with exhaustive 8/16-bit scalars, every array byte length 0..255 and every 1-2 byte UTF-8 prefix',
-    text='C06: size = marshalled length, unmarshal . marshal = wire normal form, tag/accessor separation, for all values of the 24 types and both byte orders; U+FFFD removal (F02) reproduced as a known finding.',
+    text='C06: size = marshalled length, unmarshal . marshal = wire normal form, tag/accessor separation, for all values of the 24 types and both byte orders; U+FFFD removal (F02) reproduced as a known finding. typedef.Bool arrays (KF-C01-boolarr, repaired in /repo 5da5106): C06_unmarshal_bool_array — for ANY bytes the array read of a profile-bool field returns one element per byte, element i being what the scalar read of byte i returns, all in {0, 1, 255}; C06_unmarshal_reencode_partial — for ANY bytes, every numeric base type, any bool / array flags and any two byte orders, the value UnmarshalValue returned can be marshalled and reads back as itself (value layer of "re-encoding what the decoder returned"; the string base type is the def C06_unmarshal_reencode_full, evaluated on the implementation by the ops unmre, not proved).',
     note='Trusted: Lean kernel; the consts translator; the harness/driver line protocol; the model of unicode/utf8 (tied, documented behaviour); reflection path of proto.Any tied only.',
 )
+
+# --- tie by translation (translators/go2lean, notes/go2lean.md; agreement theorems in lean/FitProps/C06Go2Lean.lean).
+# Kept as a separate block so that it never collides with edits of the dictionary above.
+PROP['regen'] = PROP['regen'] + ['go2lean:basetype']
+PROP['go2lean_diff'] = ['Basetype']      # lean/Go2LeanDiff/<Topic>.lean: search for a differing argument when an agreement theorem breaks
+PROP['theorems'] = PROP['theorems'] + [
+    'Fit.C06.C06_go2lean_sizes',
+    'Fit.C06.C06_go2lean_size',
+    'Fit.C06.C06_go2lean_valid',
+    'Fit.C06.C06_go2lean_list',
+    'Fit.C06.C06_go2lean_spec_size',
+    'Fit.C06.C06_go2lean_spec_valid',
+    'Fit.C06.C06_go2lean_spec_list',
+    'Fit.C06.C06_go2lean_spec_names']
+PROP['trusted_base'] = PROP['trusted_base'] + [
+    "translators/go2lean (Go→Lean for a small subset of Go, notes/go2lean.md) re-translates profile/basetype/basetype.go (sizes table, Size, Valid, List, String, FromString) from the current source on every run; the agreement theorems *_go2lean_* state that the translated functions equal the hand-written model functions for all arguments; trusted: the translator's rendering of the subset (go/types computes constants and types) and FitModel/GoPrelude.lean"]
